@@ -173,16 +173,32 @@ impl Prop for C13 {
             ));
         }
         f.push(Family::new(
+            "embedded-prefixes",
+            Mode::Full,
+            "hex literals whose digits contain what looks like another radix prefix (0b0, 0b1, 0B1 ...) or a leading zero: 0x10B0, 0x10b1, 0xA0B0C, 0x0b1, 0X0B101, 0xb0b1, 0x0, 0x00ff, alone, converted to decimal / binary and in a sum",
+            move |ch| {
+                let (t, n) = *ch.pick(&[("0x10B0", 0x10B0u64), ("0x10b1", 0x10b1), ("0xA0B0C", 0xA0B0C), ("0x0b1", 0xb1), ("0X0B101", 0xB101), ("0xb0b1", 0xb0b1), ("0x0", 0), ("0x00ff", 0xff)]);
+                match ch.choose(4) {
+                    0 => Some(Case::Line(LineCase::new(t.to_string(), Expect::Value(Val::Number(n as f64, Base::Hex), 0.0), "embedded"))),
+                    1 => Some(Case::Line(LineCase::new(format!("{} to decimal", t), Expect::Value(Val::Number(n as f64, Base::Dec), 0.0), "embedded"))),
+                    2 => Some(Case::RoundTrip { text: format!("{} to binary", t), n: n as f64, base: Base::Bin, out: printed(n, Base::Bin) }),
+                    _ => Some(Case::Line(LineCase::new(format!("{} + 1", t), Expect::Unspecified, "embedded").with_number(n as f64 + 1.0))),
+                }
+            },
+        ));
+        f.push(Family::new(
             "fractional",
             Mode::Full,
-            "fractional N (x,4 / x,5 / x,6 for x in 0..=40 and around 2^31) converts as round(N)",
+            "fractional N (x,4 / x,5 / x,6 for x in 0..=40 and around 2^31), written on the line or held in a variable ('n = x,6' / 'n to hex'), converts as round(N)",
             move |ch| {
+                let via_var = ch.flag();
                 let xs: Vec<u64> = (0..=40u64).chain([255, 1023, 2147483646, 2147483647, 2147483648, 4294967295].into_iter()).collect();
                 let x = *ch.pick(&xs);
                 let (ft, fv) = *ch.pick(&[("4", 0.4), ("5", 0.5), ("6", 0.6)]);
                 let (word, tgt) = *ch.pick(&[("hex", Base::Hex), ("octal", Base::Oct), ("binary", Base::Bin)]);
                 let want = (x as f64 + fv).round() as u64;
-                Some(Case::RoundTrip { text: format!("{},{} to {}", x, ft, word), n: want as f64, base: tgt, out: printed(want, tgt) })
+                let text = if via_var { format!("n = {},{}\nn to {}", x, ft, word) } else { format!("{},{} to {}", x, ft, word) };
+                Some(Case::RoundTrip { text, n: want as f64, base: tgt, out: printed(want, tgt) })
             },
         ));
         f.push(Family::new(
@@ -249,7 +265,7 @@ impl Prop for C13 {
                         v.site = Some(p.site.clone());
                         return v;
                     }
-                    _ => match run.single() {
+                    _ => match run.last() {
                         Some(Slot::Ok { val: Val::Number(x, b), out: o }) => {
                             if *x != *n || b != base {
                                 v.violation = Some("wrong value or base after conversion".into());
